@@ -137,6 +137,41 @@ def isomorphisms(m1: RefGraph, m2: RefGraph, *, labels=None, stereo=False,
     return out
 
 
+def valid_mapping(m1: RefGraph, m2: RefGraph, mapping: dict, *, labels=None,
+                  stereo=False, changes=False):
+    """is `mapping` a structure-preserving bijection atoms(m1)->atoms(m2)?
+    (any size; used where the exhaustive oracle abstains)"""
+    if set(mapping) != set(m1.atoms) or set(mapping.values()) != set(m2.atoms):
+        return False
+    if len(set(mapping.values())) != len(mapping) or len(m1.bonds) != len(m2.bonds):
+        return False
+    if labels is None:
+        if any(m1.atoms[a]["atom_type"] != m2.atoms[b]["atom_type"] for a, b in mapping.items()):
+            return False
+    else:
+        l1, l2 = labels
+        if any(l1[a] != l2[b] for a, b in mapping.items()):
+            return False
+    for b in m1.bonds:
+        if frozenset(mapping[x] for x in b) not in m2.bonds:
+            return False
+    d1 = _desc_sets(m1, stereo, changes)
+    d2 = _desc_sets(m2, stereo, changes)
+    if len(d1) != len(d2):
+        return False
+    need = {}
+    for tag, d in d2:
+        key = (tag, geom.canon(d))
+        need[key] = need.get(key, 0) + 1
+    f = mapping.__getitem__
+    for tag, d in d1:
+        key = (tag, geom.canon(geom.map_desc(d, f)))
+        if need.get(key, 0) <= 0:
+            return False
+        need[key] -= 1
+    return True
+
+
 def isomorphic(m1, m2, **kw):
     return bool(isomorphisms(m1, m2, first_only=True, **kw))
 
